@@ -1145,6 +1145,11 @@ impl CompileState<'_> {
                         if seen_ok_literal {
                             return Err(self.redundant_match_arm_error(v_span));
                         }
+                        // A second binding pattern for the same variant can never match,
+                        // whatever name it binds; it must not count as a further value.
+                        if seen_ok_binding {
+                            return Err(self.unreachable_match_arm_error(v_span));
+                        }
                         seen_ok_binding = true;
                     }
                     ExprKind::Ok(_) if seen_ok_binding => {
@@ -1156,6 +1161,11 @@ impl CompileState<'_> {
                     ExprKind::Err(inner) if matches!(inner.inner, ExprKind::Identifier(_)) => {
                         if seen_err_literal {
                             return Err(self.redundant_match_arm_error(v_span));
+                        }
+                        // A second binding pattern for the same variant can never match,
+                        // whatever name it binds; it must not count as a further value.
+                        if seen_err_binding {
+                            return Err(self.unreachable_match_arm_error(v_span));
                         }
                         seen_err_binding = true;
                     }
@@ -1170,6 +1180,9 @@ impl CompileState<'_> {
                     {
                         if seen_some_literal {
                             return Err(self.redundant_match_arm_error(v_span));
+                        }
+                        if seen_some_binding {
+                            return Err(self.unreachable_match_arm_error(v_span));
                         }
                         seen_some_binding = true;
                     }
